@@ -383,8 +383,8 @@ def find_harness(infos, procs):
         r, d = regs[0], drams[0]
         if not (isinstance(d.shape[0], LoopIR.Const) and int(d.shape[0].val) == r.width and d.bt == r.bt):
             continue
-        if 0 not in d.unit_stride:
-            continue
+        # (the harness itself always uses these copies at unit stride, so their own stride
+        # assertions are not part of what makes them usable)
         body = ir.body
         if len(body) != 1 or not isinstance(body[0], LoopIR.For):
             continue
@@ -415,7 +415,23 @@ def gen_placement(info, rng, pidx):
     size arguments as run-time arguments); pidx 1: literal everything (leading dims,
     2-D DRAM operands incl. non-unit stride where no assertion forbids it, literal size);
     pidx >= 2: random mixture."""
-    pl = {"pidx": pidx, "ctl": {}, "ops": {}}
+    wide = pidx == "hw"
+    if wide:
+        # like pidx 1, but one register operand lives in the upper half of a register array
+        # whose innermost extent is twice the vector width: the memory has to refuse the
+        # allocation; if it does not, the compiled instruction is compared as usual
+        pidx = 1
+    hostile = pidx == "hs"
+    if hostile:
+        # like pidx 1, but one DRAM operand whose unit stride is asserted is placed on a
+        # column (stride > 1): exo has to refuse the call site; if it does not, the compiled
+        # instruction is compared as usual
+        pidx = 1
+    pl = {"pidx": "hs" if hostile else ("hw" if wide else pidx), "ctl": {}, "ops": {}}
+    regs_ = [a.name for a in info.args if a.kind == "reg"]
+    wide_victim = rng.choice(regs_) if (wide and regs_) else None
+    forbidden = [a.name for a in info.args if a.kind == "dram" and 0 in a.unit_stride]
+    victim = rng.choice(forbidden) if (hostile and forbidden) else None
     ctls = [a for a in info.args if a.kind == "ctl"]
     can_arg = all(c.name in info.ctl_range for c in ctls if c.ctl_type != "bool")
     if pidx == 0:
@@ -445,12 +461,14 @@ def gen_placement(info, rng, pidx):
                 whole = nl == 0 and rng.random() < 0.5
             idx = [rng.randrange(n) for n in lead]
             pl["ops"][a.name] = {"lead": lead, "idx": idx, "dyn": dyn, "whole": whole}
+            if a.name == wide_victim:
+                pl["ops"][a.name]["wide"] = 2
         elif a.kind == "dram":
             can_col = 0 not in a.unit_stride
             if pidx == 0:
                 lay, dyn = "1d", True
             elif pidx == 1:
-                lay, dyn = ("col" if can_col else "row"), False
+                lay, dyn = ("col" if (can_col or a.name == victim) else "row"), False
             else:
                 lay = rng.choice(["1d", "row", "row"] + (["col", "col"] if can_col else []))
                 dyn = rng.random() < 0.5
@@ -530,7 +548,8 @@ def build_wrapper(info, pl, harness, modname=PLATFORM_MODULE):
             hk = harness[reg_kind(a)]
             rname, ioname = fresh(a.name + "_r"), fresh(a.name + "_io")
             lead = list(op["lead"])
-            shape = lead + [a.width]
+            wide_k = int(op.get("wide", 1))
+            shape = lead + [a.width * wide_k]
             shp = ", ".join(str(s) for s in shape)
             wargs.append({"name": ioname, "role": "io", "bt": a.bt, "shape": shape, "for": a.name})
             allocs.append(f"{rname}: {a.bt}[{shp}] @ {a.mem}")
@@ -556,8 +575,14 @@ def build_wrapper(info, pl, harness, modname=PLATFORM_MODULE):
 
             pre += nest(harness_call(hk["load"]))
             post += nest(harness_call(hk["store"]))
+            for half in range(1, wide_k):
+                rw = f"{rname}[{ix}{half * a.width}:{(half + 1) * a.width}]"
+                dw = f"{ioname}[{ix}{half * a.width}:{(half + 1) * a.width}]"
+                pre += nest(harness_call(hk["load"], rw, dw))
+                post += nest(harness_call(hk["store"], rw, dw))
+            w_lo = (wide_k - 1) * a.width
             # the window handed to the instruction
-            if not lead and op["whole"]:
+            if not lead and op["whole"] and wide_k == 1:
                 call_args.append(rname)
                 windows[a.name] = {"buf": ioname, "shape": shape, "pts": {}, "wdim": 0, "lo": ["lit", 0]}
             else:
@@ -573,8 +598,8 @@ def build_wrapper(info, pl, harness, modname=PLATFORM_MODULE):
                     else:
                         idxs.append(str(i))
                         wpts[str(d)] = ["lit", i]
-                windows[a.name] = {"buf": ioname, "shape": shape, "pts": wpts, "wdim": len(lead), "lo": ["lit", 0]}
-                call_args.append(f"{rname}[{''.join(i + ', ' for i in idxs)}0:{a.width}]")
+                windows[a.name] = {"buf": ioname, "shape": shape, "pts": wpts, "wdim": len(lead), "lo": ["lit", w_lo]}
+                call_args.append(f"{rname}[{''.join(i + ', ' for i in idxs)}{w_lo}:{w_lo + a.width}]")
         elif a.kind == "dram":
             mname = fresh(a.name + "_m")
             exts = []
